@@ -259,7 +259,9 @@ Fixpoint process (fuel : nat) (c : client) (e : event) : client * rk :=
     (* commit from another member at the current epoch: OpenMLS needs every proposal committed by reference in the
        receiver's own proposal store *)
     if negb (forallb (fun p => existsb (N.eqb p) (k_props k)) (e_refs e)) then fail_unprocessable c e rec_epoch else
-    if negb (e_auth e) then (record_failure c (e_id e) true (Some rec_epoch), RErr)
+    (* validate_commit_authorization (CommitFromNonAdmin: Err), then validate_commit_identities (e_bad = 8: the commit changes a
+       member's identity - IdentityChangeNotAllowed: Unprocessable); the failure record is the same *)
+    if negb (e_auth e) || (e_bad e =? 8) then (record_failure c (e_id e) true (Some rec_epoch), if negb (e_auth e) then RErr else RUnproc)
     else apply_commit c e (commit_of e).
 
 (* ---------------------------------------------------------------- local API calls *)
